@@ -7,7 +7,7 @@ import z3
 from . import smt
 from .smt import FForall, FAnd, FImp, FExists, QFact, f_and, f_imp, fresh, is_qf, zbool
 from . import vals as V
-from .vals import (OutOfReach, Arr, ExprArr, SpecArr, FunVal, Obj, INT, REAL, BOOL, is_sym, is_cint,
+from .vals import (OutOfReach, Arr, ExprArr, ArrView, SpecArr, FunVal, Obj, INT, REAL, BOOL, is_sym, is_cint,
                    is_creal, is_intlike, is_reallike, is_boollike, is_num, Z, ZR, ZI, simp, binop, compare,
                    truth, b_not, b_and, b_or, ite)
 from .interp import Module, load_module, State, Obligation, Contract, Ctx
@@ -413,10 +413,12 @@ class Engine(Exec):
                 continue
             if isinstance(a, Arr):
                 self.havoc_arr(st, a)
+            elif isinstance(a, ArrView):
+                self.havoc_view(st, a)
             elif a is not None and not isinstance(a, (SpecArr, ExprArr)):
                 pass
             elif isinstance(a, ExprArr):
-                raise OutOfReach('callee modifies a view')
+                raise OutOfReach('callee modifies a temporary array expression')
         post_st = st.fork()
         post_st.env = dict(env)
         result = None
@@ -579,7 +581,7 @@ class Engine(Exec):
 
     def assign(self, t, v, st, fr):
         if isinstance(t, ast.Name):
-            if isinstance(v, ExprArr):
+            if isinstance(v, ExprArr) and not isinstance(v, ArrView):
                 # materialise: a new array object
                 a = self.new_arr(st, v.rank, v.shape, v.elem, t.id)
                 st.heap[a.aid] = self.arr_term(st, v)
@@ -601,7 +603,7 @@ class Engine(Exec):
         elif isinstance(t, ast.Attribute):
             base = self.ev(t.value, st, fr)
             if isinstance(base, Obj):
-                if isinstance(v, ExprArr):
+                if isinstance(v, ExprArr) and not isinstance(v, ArrView):
                     a = self.new_arr(st, v.rank, v.shape, v.elem, t.attr)
                     st.heap[a.aid] = self.arr_term(st, v)
                     v = a
@@ -788,6 +790,8 @@ class Engine(Exec):
                 continue
             if isinstance(v, Arr):
                 arr_objs.append(v)
+            elif isinstance(v, ArrView):
+                arr_objs.append(v.base)
         for c in calls:
             try:
                 f = self.ev(c.func, st, fr)
@@ -813,9 +817,21 @@ class Engine(Exec):
                 elif cc is None:
                     mods = self.syntactic_modifies(mod, fnode)
             for k, a in enumerate(c.args):
-                if isinstance(a, ast.Name) and a.id in st.env and isinstance(st.env[a.id], Arr):
+                if isinstance(a, ast.Name) and a.id in st.env and isinstance(st.env[a.id], (Arr, ArrView)):
                     if mods is None or (k < len(params) and params[k] in mods):
-                        arr_objs.append(st.env[a.id])
+                        av = st.env[a.id]
+                        arr_objs.append(av.base if isinstance(av, ArrView) else av)
+                elif isinstance(a, ast.Subscript):
+                    # a view expression handed to a callee that may write through it
+                    b = a
+                    while isinstance(b, ast.Subscript):
+                        b = b.value
+                    try:
+                        av = self.ev(b, st, fr)
+                    except Exception:
+                        av = None
+                    if isinstance(av, (Arr, ArrView)) and (mods is None or (k < len(params) and params[k] in mods)):
+                        arr_objs.append(av.base if isinstance(av, ArrView) else av)
         return names, arr_objs
 
     def syntactic_modifies(self, mod, fnode, depth=0):
@@ -830,6 +846,23 @@ class Engine(Exec):
                     if isinstance(a, ast.Name) and a.id in params:
                         out.add(a.id)
         return list(out)
+
+    def havoc_view(self, st, v):
+        """Unknown new contents inside the region a view covers; the rest of the storage is unchanged."""
+        base = v.base
+        t = st.heap[base.aid]
+        V._arr_counter[0] += 1
+        fresh_t = z3.Const('%s!v%d' % (base.name, V._arr_counter[0]), base.sort())
+        ids = [z3.Int('lam!%d' % k) for k in range(base.rank)]
+        conds = []
+        vi = 0
+        for k, (kd, val) in enumerate(v.spec):
+            if kd == 'i':
+                conds.append(ids[k] == ZI(val))
+            else:
+                conds.append(z3.And(ids[k] >= ZI(val), ids[k] < ZI(binop('Add', val, v.shape[vi]))))
+                vi += 1
+        st.heap[base.aid] = z3.Lambda(ids, z3.If(z3.And(*conds), z3.Select(fresh_t, *ids), z3.Select(t, *ids)))
 
     def do_havoc(self, st, names, arr_objs, keep=()):
         for n in names:
